@@ -40,8 +40,14 @@ impl SignatureVerificationService {
         let (sender, receiver) = flume::bounded::<VerificationMessage>(verification_treads * 2);
         for _ in 0..verification_treads {
             let local_receiver = receiver.clone();
+            #[cfg(discret_verif)]
+            let verif_node = crate::verif::node();
             thread::spawn(move || {
+                #[cfg(discret_verif)]
+                let _verif_thread = crate::verif::ThreadGuard::enter(verif_node);
                 while let Ok(msg) = local_receiver.recv() {
+                    #[cfg(discret_verif)]
+                    let _verif_inflight = crate::verif::InflightGuard;
                     match msg {
                         VerificationMessage::RoomNode(node, reply) => {
                             let _ = reply.send(Self::room_check(*node));
@@ -179,6 +185,8 @@ impl SignatureVerificationService {
     }
 
     pub async fn verify_room_node(&self, node: RoomNode) -> Result<RoomNode> {
+        #[cfg(discret_verif)]
+        crate::verif::inflight(1);
         let (reply, receiver) = oneshot::channel::<Result<RoomNode>>();
         let _ = self
             .sender
@@ -188,6 +196,8 @@ impl SignatureVerificationService {
     }
 
     pub async fn verify_nodes(&self, nodes: Vec<Node>) -> Result<Vec<Node>> {
+        #[cfg(discret_verif)]
+        crate::verif::inflight(1);
         let (reply, receiver) = oneshot::channel::<Result<Vec<Node>>>();
         let _ = self
             .sender
@@ -197,6 +207,8 @@ impl SignatureVerificationService {
     }
 
     pub async fn verify_edges(&self, nodes: Vec<Edge>) -> Result<Vec<Edge>> {
+        #[cfg(discret_verif)]
+        crate::verif::inflight(1);
         let (reply, receiver) = oneshot::channel::<Result<Vec<Edge>>>();
         let _ = self
             .sender
@@ -209,6 +221,8 @@ impl SignatureVerificationService {
         &self,
         log: Vec<EdgeDeletionEntry>,
     ) -> Result<Vec<EdgeDeletionEntry>> {
+        #[cfg(discret_verif)]
+        crate::verif::inflight(1);
         let (reply, receiver) = oneshot::channel::<Result<Vec<EdgeDeletionEntry>>>();
         let _ = self
             .sender
@@ -221,6 +235,8 @@ impl SignatureVerificationService {
         &self,
         log: Vec<NodeDeletionEntry>,
     ) -> Result<Vec<NodeDeletionEntry>> {
+        #[cfg(discret_verif)]
+        crate::verif::inflight(1);
         let (reply, receiver) = oneshot::channel::<Result<Vec<NodeDeletionEntry>>>();
         let _ = self
             .sender
@@ -235,6 +251,8 @@ impl SignatureVerificationService {
         hash: [u8; 32],
         verifying_key: Vec<u8>,
     ) -> bool {
+        #[cfg(discret_verif)]
+        crate::verif::inflight(1);
         let (reply, receiver) = oneshot::channel::<bool>();
         let _ = self
             .sender
